@@ -6,31 +6,43 @@ import json, os, subprocess, sys, time
 V = os.path.dirname(os.path.dirname(os.path.abspath(__file__)))
 tier = 'quick'
 args = sys.argv[1:]
+REPO = '/repo'
+env = dict(os.environ)
+if '--worktree' in args:
+    # evaluation on a scratch worktree of /repo with its own Kani target (several evaluations can then run in parallel)
+    i = args.index('--worktree'); REPO = args[i + 1]; del args[i:i + 2]
+    env['VERIF_REPO'] = REPO
+if '--target' in args:
+    i = args.index('--target'); env['VERIF_KANI_TARGET'] = args[i + 1]; env['VERIF_KANI_PLAYBACK_TARGET'] = args[i + 1] + '-playback'; del args[i:i + 2]
+if '--cache' in args:
+    i = args.index('--cache'); env['VERIF_CACHE_DIR'] = args[i + 1]; del args[i:i + 2]
+if '--evidence' in args:
+    i = args.index('--evidence'); env['VERIF_EVIDENCE_DIR'] = args[i + 1]; del args[i:i + 2]
 if '--tier' in args:
     i = args.index('--tier'); tier = args[i + 1]; del args[i:i + 2]
 ids = args or sorted(d for d in os.listdir(os.path.join(V, 'seeded')) if os.path.isdir(os.path.join(V, 'seeded', d)))
-dirty = subprocess.run(['git', '-C', '/repo', 'status', '--porcelain', '--untracked-files=no'], capture_output=True, text=True).stdout.strip()
+dirty = subprocess.run(['git', '-C', REPO, 'status', '--porcelain', '--untracked-files=no'], capture_output=True, text=True).stdout.strip()
 if dirty:
-    print('refusing: /repo has local changes:\n' + dirty); sys.exit(2)
+    print('refusing: %s has local changes:\n' % REPO + dirty); sys.exit(2)
 for sid in ids:
     d = os.path.join(V, 'seeded', sid)
     meta = json.load(open(os.path.join(d, 'meta.json')))
     patch = os.path.join(d, 'patch.diff')
-    r = subprocess.run(['git', '-C', '/repo', 'apply', '--check', patch], capture_output=True, text=True)
+    r = subprocess.run(['git', '-C', REPO, 'apply', '--check', patch], capture_output=True, text=True)
     if r.returncode != 0:
         print(sid, 'patch does not apply:', r.stderr.strip()[:300]); continue
-    subprocess.run(['git', '-C', '/repo', 'apply', patch], check=True)
+    subprocess.run(['git', '-C', REPO, 'apply', patch], check=True)
     t0 = time.time()
     try:
         res = {}
         for prop in meta.get('properties', [meta.get('property')]):
-            p = subprocess.run([os.path.join(V, 'verif'), 'check', prop, '--tier', tier], capture_output=True, text=True, cwd=V)
+            p = subprocess.run([os.path.join(V, 'verif'), 'check', prop, '--tier', tier], capture_output=True, text=True, cwd=V, env=env)
             lines = [l for l in p.stdout.splitlines() if l.startswith(('VIOLATION', 'UNDECIDED', 'OK', 'KNOWN-FINDING'))]
             res[prop] = dict(exit=p.returncode, lines=lines)
             print('%-28s %-4s exit=%d %s' % (sid, prop, p.returncode, ' | '.join(l[:160] for l in lines if not l.startswith('KNOWN'))[:400]))
     finally:
-        subprocess.run(['git', '-C', '/repo', 'checkout', '--', '.'], check=True)
-    json.dump(dict(id=sid, tier=tier, wall_s=round(time.time() - t0, 1), detected=any(v['exit'] == 1 for v in res.values()), results=res,
+        subprocess.run(['git', '-C', REPO, 'checkout', '--', '.'], check=True)
+    json.dump(dict(id=sid, tier=tier, evaluated_on=REPO, wall_s=round(time.time() - t0, 1), detected=any(v['exit'] == 1 for v in res.values()), results=res,
                    verif_commit=subprocess.run(['git', '-C', V, 'rev-parse', '--short', 'HEAD'], capture_output=True, text=True).stdout.strip()),
               open(os.path.join(d, 'result.json'), 'w'), indent=1)
 # restore evidence of the unchanged tree is the caller's job (re-run the checks)
